@@ -157,14 +157,14 @@ impl<const N: u32> PxE2<{ N }> {
                 let mut bits_more = false;
                 let mut bit_n_plus_one = false;
                 if reg_a < N {
-                    if reg_a <= (N - 4) {
+                    if reg_a + 4 <= N {
                         bit_n_plus_one = (((0x_8000_0000_u64) << (32 - N)) & frac64_a) != 0;
                     //exp_a <<= (28-reg_a);
                     } else {
                         if reg_a == (N - 2) {
                             bit_n_plus_one = (exp_a & 0x2) != 0;
                             exp_a = 0;
-                        } else if reg_a == (N - 3) {
+                        } else if reg_a + 3 == N {
                             bit_n_plus_one = (exp_a & 0x1) != 0;
                             //exp_a>>=1;
                             exp_a &= 0x2;
@@ -185,7 +185,12 @@ impl<const N: u32> PxE2<{ N }> {
                 }
                 frac_a &= Self::mask();
 
-                exp_a <<= 28 - reg_a;
+                // a regime longer than 28 bits leaves room for only part of the exponent field
+                exp_a = if reg_a <= 28 {
+                    exp_a << (28 - reg_a)
+                } else {
+                    exp_a >> (reg_a - 28)
+                };
                 let mut u_z = Self::pack_to_ui(regime, exp_a as u32, frac_a);
 
                 //n+1 frac bit is 1. Need to check if another bit is 1 too if not round to even
@@ -284,14 +289,14 @@ impl<const N: u32> PxE2<{ N }> {
                 let mut bits_more = false;
                 let mut bit_n_plus_one = false;
                 if reg_a < N {
-                    if reg_a <= (N - 4) {
+                    if reg_a + 4 <= N {
                         bit_n_plus_one = (((0x_8000_0000_u64) << (32 - N)) & frac64_a) != 0;
                     //exp_a <<= (28-reg_a);
                     } else {
                         if reg_a == (N - 2) {
                             bit_n_plus_one = (exp_a & 0x2) != 0;
                             exp_a = 0;
-                        } else if reg_a == (N - 3) {
+                        } else if reg_a + 3 == N {
                             bit_n_plus_one = (exp_a & 0x1) != 0;
                             //exp_a>>=1;
                             exp_a &= 0x2;
@@ -312,7 +317,12 @@ impl<const N: u32> PxE2<{ N }> {
                 }
                 frac_a &= Self::mask();
 
-                exp_a <<= 28 - reg_a;
+                // a regime longer than 28 bits leaves room for only part of the exponent field
+                exp_a = if reg_a <= 28 {
+                    exp_a << (28 - reg_a)
+                } else {
+                    exp_a >> (reg_a - 28)
+                };
                 let mut u_z = Self::pack_to_ui(regime, exp_a as u32, frac_a);
 
                 //n+1 frac bit is 1. Need to check if another bit is 1 too if not round to even
@@ -404,7 +414,7 @@ impl<const N: u32> ops::Mul for PxE2<{ N }> {
                 let mut bit_n_plus_one = false;
                 let mut bits_more = false;
                 if reg_a < N {
-                    if reg_a <= (N - 4) {
+                    if reg_a + 4 <= N {
                         bit_n_plus_one = ((0x_8000_0000_0000_0000_u64 >> N) & frac64_z) != 0;
                         bits_more = ((0x_7FFF_FFFF_FFFF_FFFF >> N) & frac64_z) != 0;
                         frac_a &= Self::mask();
@@ -413,7 +423,7 @@ impl<const N: u32> ops::Mul for PxE2<{ N }> {
                             bit_n_plus_one = (exp_a & 0x2) != 0;
                             bits_more = (exp_a & 0x1) != 0;
                             exp_a = 0;
-                        } else if reg_a == (N - 3) {
+                        } else if reg_a + 3 == N {
                             bit_n_plus_one = (exp_a & 0x1) != 0;
                             //exp_a>>=1; //taken care of by the pack algo
                             exp_a &= 0x2;
@@ -434,7 +444,12 @@ impl<const N: u32> ops::Mul for PxE2<{ N }> {
                     frac_a = 0;
                 }
 
-                exp_a <<= 28 - reg_a;
+                // a regime longer than 28 bits leaves room for only part of the exponent field
+                exp_a = if reg_a <= 28 {
+                    exp_a << (28 - reg_a)
+                } else {
+                    exp_a >> (reg_a - 28)
+                };
                 let mut u_z = Self::pack_to_ui(regime, exp_a as u32, frac_a);
 
                 if bit_n_plus_one {
@@ -522,7 +537,7 @@ impl<const N: u32> ops::Div for PxE2<{ N }> {
                 let mut bit_n_plus_one = false;
                 let mut bits_more = false;
                 if reg_a < N {
-                    if reg_a <= (N - 4) {
+                    if reg_a + 4 <= N {
                         bit_n_plus_one = ((0x_8000_0000_u32 >> (N - reg_a - 2)) & frac64_z) != 0;
                         bits_more = ((0x_7FFF_FFFF >> (N - reg_a - 2)) & frac64_z) != 0;
                         frac_a &= Self::mask();
@@ -531,7 +546,7 @@ impl<const N: u32> ops::Div for PxE2<{ N }> {
                             bit_n_plus_one = (exp_a & 0x2) != 0;
                             bits_more = (exp_a & 0x1) != 0;
                             exp_a = 0;
-                        } else if reg_a == (N - 3) {
+                        } else if reg_a + 3 == N {
                             bit_n_plus_one = (exp_a & 0x1) != 0;
                             //exp_a>>=1; //taken care of by the pack algo
                             exp_a &= 0x2;
@@ -555,7 +570,12 @@ impl<const N: u32> ops::Div for PxE2<{ N }> {
                     frac_a = 0;
                 }
 
-                exp_a <<= 28 - reg_a;
+                // a regime longer than 28 bits leaves room for only part of the exponent field
+                exp_a = if reg_a <= 28 {
+                    exp_a << (28 - reg_a)
+                } else {
+                    exp_a >> (reg_a - 28)
+                };
                 let mut u_z = Self::pack_to_ui(regime, exp_a as u32, frac_a);
 
                 if bit_n_plus_one {
